@@ -15,8 +15,9 @@ EXPLANATION = (
     "introduces one of the two); (forward) WalkTree::next, FilterEntry::feed, Not::feed and the glob walker closure "
     "turn an error item into the same error as filtrate with no verdict and no cancellation; (map) the conversion from "
     "walkdir's error keeps depth and path and distinguishes I/O errors from link cycles.  A positive-control fixture "
-    "containing the forbidden constructs is analysed on every run and must be reported.")
-RULES = "C20.nodrop (WHO), C20.sink (WHO), C20.forward (EFFECT+SIBLING), C20.map (TABLE+PROV)"
+    "containing the forbidden constructs is analysed on every run and must be reported.  "
+    "(source) both public walk routes - PathExt::walk_with_behavior on an unknown directory, Glob::new + Glob::walk_with_behavior for nine glob / base pairs - are evaluated end to end with the walkdir model; a call without a model (a probe of the file system) answers an unknown and both outcomes are explored: in every case the first next() asks walkdir, built on the walk root, so a fault at the root is reported by walkdir and cannot be pre-empted.")
+RULES = "C20.nodrop (WHO), C20.sink (WHO), C20.forward (EFFECT+SIBLING), C20.map (TABLE+PROV), C20.source (EFFECT: every walk consults walkdir on its root, whatever unmodelled calls answer), C13.skip"
 
 ERR_TYPES = ("walk::WalkError", "walkdir::Error")
 ALLOWED_DROPS = {("<walk::WalkError as std::convert::From>::from", "walkdir::Error"):
@@ -97,6 +98,101 @@ def run(ctx):
     rule_next(F, R)
     rule_walker_err(F, R)
     rule_map(F, R)
+    rule_source(F, R)
+
+
+def find_walk_tree(v, depth=0):
+    """The WalkTree value inside an iterator value (through adaptor structs, references and tuples)."""
+    v = strip(v)
+    if isinstance(v, Ref):
+        return find_walk_tree(v.place.get(), depth + 1)
+    if isinstance(v, Adt):
+        if v.path == "walk::WalkTree":
+            return v
+        if depth < 8:
+            for f in v.fields.values():
+                r = find_walk_tree(f, depth + 1)
+                if r is not None:
+                    return r
+    if isinstance(v, Tup) and depth < 8:
+        for f in v.items:
+            r = find_walk_tree(f, depth + 1)
+            if r is not None:
+                return r
+    return None
+
+
+def rule_source(F, R):
+    """C20.source (EFFECT): every walk consults walkdir on its root.  A fault at the root of a walk (a dangling or
+    re-entrant link, a path through a file, an unreadable directory) is reported by walkdir as the first item; a walk
+    that decides by itself - in particular by probing the file system - not to consult walkdir swallows that item and,
+    on a readable tree, yields nothing.  Both public routes are evaluated from their THIR with the walkdir model and
+    an unbounded depth behaviour: PathExt::walk_with_behavior on an unknown directory, and Glob::new +
+    Glob::walk_with_behavior for glob texts with a prefix of 0..2 components, rooted and with `..` (parser with the
+    nom model, rule checker, invariant prefix, join, WalkTree construction).  Every call that has no model (a probe of
+    the file system, say) answers an unknown and both outcomes are explored: in every explored case the first next()
+    of the WalkTree inside the returned iterator must ask walkdir, built on the walk's root."""
+    from ..teval import Interp, RList
+    from .. import nommodel as N
+    from . import pathmodel as PM
+    nxt = F.find("<walk::WalkTree as std::iter::Iterator>::next")
+    new = F.find("Glob::new", optional=True)
+    gwalk = F.find("Glob::walk_with_behavior", optional=True)
+    pw = F.find("<std::path::Path as walk::PathExt>::walk_with_behavior", optional=True)
+    if new is None or gwalk is None or pw is None:
+        R.anchor_missing("C20.source", "Glob::new / Glob::walk_with_behavior / PathExt::walk_with_behavior")
+        return
+    beh = Adt("walk::behavior::WalkBehavior", "WalkBehavior", {"link": Adt("walk::behavior::LinkBehavior", "ReadFile", {}),
+                                                               "depth": Adt("walk::behavior::DepthBehavior", "Unbounded", {})})
+    n = 0
+    scenarios = [("path walk", None, None)] + [("glob walk of `%s` from `%s`" % (t, b), t, b) for t, b in (
+        ("*", "base"), ("**", ""), ("a/*", "base"), ("a/b/**", "base"), ("a/b", "base"), ("/a/*", "base"), ("../a/*", "base"), ("a/*", "/abs"), ("{a,b}/*", "base"))]
+    for name, text, base in scenarios:
+        stubs = dict(N.stubs())
+        stubs.update(PM.stubs())
+        stubs.update(W.walkdir_stubs())
+        stubs["rule::size"] = lambda I, a, fn, e: ok(UNIT)
+        stubs["walk::glob::WalkProgram::compile"] = lambda I, a, fn, e: ok(RList([]))
+        stubs["encode::compile"] = lambda I, a, fn, e: ok(Sym("program"))
+        stubs["Glob::compile"] = lambda I, a, fn, e: ok(Sym("program"))
+        I = Interp(F, stubs, fuel=3000000)
+        where = (pw if text is None else gwalk).where()
+
+        def run():
+            if text is None:
+                it_ = I.call_item(pw, [Ref(Place(Cell(Sym("root")))), beh], inst=False)
+            else:
+                g = strip(I.call_item(new, [text]))
+                if not (isinstance(g, Adt) and g.variant == "Ok"):
+                    I.emit("no-walk-tree", "Glob::new(%r) = %r" % (text, g))
+                    return g
+                it_ = I.call_item(gwalk, [Ref(Place(Cell(g.fields["0"]))), PM.from_text(base), beh], inst=False)
+            wt = find_walk_tree(it_)
+            if wt is None:
+                I.emit("no-walk-tree", repr(strip(it_))[:200])
+                return it_
+            return I.call_item(nxt, [Ref(Place(Cell(wt)))])
+        cases = I.explore(run)
+        for c in cases:
+            n += 1
+            inst = "%s/%s" % (name, ",".join("%s=%s" % (d[0], d[3]) if len(d) > 3 else str(d) for d in c.decisions) or "always")
+            if isinstance(c.result, (Top, Panicked)) or I.tops:
+                R.fail("C20.source", inst, "constructing the walk is unanalysable / panics: %r %s" % (c.result, I.tops[:1]), where)
+                continue
+            news = [ev for ev in c.log if ev[0] == "walkdir.new"]
+            asked = [ev for ev in c.log if ev[0] == "walkdir.next"]
+            missing = [ev for ev in c.log if ev[0] == "no-walk-tree"]
+            good = len(news) == 1 and len(asked) == 1 and not missing
+            if good and text is None:
+                good = "root" in news[0][1]
+            R.check(good, "C20.source", inst, "the walk asks walkdir, built on its root, for its first item", where,
+                    fail_msg="in the case [%s] the %s %s: a fault at the root of the walk is never reported (and a readable tree is not walked); "
+                             "walkdir constructions %s, next() calls %d" % (
+                                 "; ".join(str(d) for d in c.decisions) or "no condition", name,
+                                 "returns an iterator without a WalkTree (%s)" % missing[0][1] if missing else "does not consult walkdir",
+                                 [ev[1] for ev in news], len(asked)))
+    R.floor("C20.source", "walk constructions explored", n, 10)
+
 
 
 def rule_nodrop(F, R, cfg):
